@@ -203,6 +203,9 @@ class Ref:
         if op == "newn":
             self.store(sl(a[0]), [dec(T, a[2])] * int(a[1]))
             return "ok"
+        if op == "ksort":
+            self.store(sl(a[0]), sorted(range(int(a[1])), reverse=(a[2] == "1")))
+            return "ok"
         if op == "newp":
             self.store(sl(a[0]), [dec(T, x) for x in a[1:]])
             return "ok"
@@ -747,6 +750,11 @@ def gen(rng, tier):
         cases.append(gen_case(rng, p[0], p[1], rng.randrange(60, 400), "large", exclusive=(i % 2 == 0)))
     for i in range(250 if quick else 6000):
         cases.append(gen_nested(rng, rng.randrange(3, 40)))
+    # sort / sort(less) / sortBy on a median-killer permutation, run by the harness on a 24 KB thread stack: a recursion
+    # as deep as the array is long (the code before dff9640) overflows it from about 600 elements on
+    for mode in range(3):
+        for _ in range(1 if quick else 4):
+            cases.append(["ia reset", "ia ksort %d %d %d" % (rng.randrange(NS), rng.randrange(900, 1300), mode), "ia iter 0", "ia get %d 5" % rng.randrange(NS)])
     cases += exhaustive_cases(3 if quick else 5, ["c"] if quick else ["c", "s"])
     return cases
 
